@@ -12,6 +12,7 @@ import TonVerif.Drv.BocParse
 import TonVerif.Drv.Proof
 import TonVerif.Drv.Message
 import TonVerif.Drv.Tlb
+import TonVerif.Drv.Sig
 
 open TonVerif TonVerif.Drv
 
@@ -23,6 +24,8 @@ def handlers : List (String → List String → Option String) := [
   Proof.handle?
   Msg.handle?
   Tlb.handle?
+  Sig.handle?,
+  Adnl.handle?
 ]
 
 def handle (op : String) (args : List String) : String :=
